@@ -31,26 +31,26 @@ def gen_cases(ctx, G, r, scale):
     import gen_sigs as gs
     cases = []
     # A: composition (two partial steps, then the composed step in one go)
-    for _ in range(600 * scale):
+    for _ in range(300 * scale):
         f = G.sig(nmax=r.choice([2, 3, 3, 4, 5]), dependent=r.random() < 0.6)
         a1 = G.partial(f["params"], p_none=r.choice([0.3, 0.5, 0.7, 1.0]))
         r1 = gs.spec_partial(f, a1)
         a2 = G.partial(r1["params"], p_none=r.choice([0.0, 0.3, 0.6, 1.0]))
         cases.append({"op": "ip", "f": f, "steps": [a1, a2], "a12": gs.compose_args(a1, a2)})
     # B: the Instantiator alone, partial lists, out-of-range indices (shifting)
-    for _ in range(300 * scale):
+    for _ in range(150 * scale):
         ps = G.params(r.randint(1, 5))
         t = G.open_ty(ps, 3)
         s = G.partial(ps[:r.randint(0, len(ps))], p_none=0.4)
         cases.append({"op": "inst", "s": s, "t": t})
     # C: compile_variable_idx
-    for _ in range(150 * scale):
+    for _ in range(60 * scale):
         m = [None if r.random() < 0.5 else G.closed_ty(1) for _ in range(r.randint(1, 7))]
         for i, x in enumerate(m):
             if x is None:
                 cases.append({"op": "cvi", "idx": i, "m": m})
     # D/E: partially_monomorphize_args / require_monomorphization
-    for _ in range(400 * scale):
+    for _ in range(200 * scale):
         ps = G.params(r.randint(1, 5))
         args = G.partial(ps, p_none=0.0)
         if any(a is None for a in args):
@@ -58,7 +58,7 @@ def gen_cases(ctx, G, r, scale):
         cases.append({"op": "pma", "params": ps, "args": args, "cur": None})
         cases.append({"op": "reqmono", "params": ps})
     # F: to_hugr under the three contexts, monomorphize (instantiate_partial + to_hugr_poly)
-    for _ in range(300 * scale):
+    for _ in range(120 * scale):
         f = G.sig(nmax=4, dependent=r.random() < 0.5)
         ps = f["params"]
         args = G.partial(ps, p_none=0.0)
@@ -82,15 +82,15 @@ def coq_expr(c):
     import gen_sigs as gs
     op = c["op"]
     if op == "ip":
-        steps = "[" + "; ".join(gs.colist(s) for s in c["steps"]) + "]"
+        steps = gs.L(gs.colist(s) for s in c["steps"])
         e = f"enc_ftys (ip_steps {gs.cfty(c['f'])} {steps})"
         if "a12" in c:
-            e += f" ++ enc_ftys (ip_steps {gs.cfty(c['f'])} [{gs.colist(c['a12'])}])"
+            e += f" ++ enc_ftys (ip_steps {gs.cfty(c['f'])} {gs.L([gs.colist(c['a12'])])})"
         return e
     if op == "inst":
         return f"enc (inst {gs.colist(c['s'])} {gs.ctm(c['t'])})"
     if op == "cvi":
-        return f"[zn (compile_variable_idx {c['idx']} {gs.colist(c['m'])})]"
+        return f"(cons (zn (compile_variable_idx {c['idx']} {gs.colist(c['m'])})) nil)"
     if op == "pma":
         cur = "None" if c["cur"] is None else f"(Some {gs.colist(c['cur'])})"
         return f"pma_enc (partially_monomorphize_args {gs.cparams(c['params'])} {gs.clist(c['args'])} {cur})"
@@ -111,9 +111,11 @@ def coq_expr(c):
 
 
 def coq_file(cases):
+    import gen_sigs as gs
     lines = ["From Coq Require Import ZArith List Bool.", "From V.C13 Require Import Model ModelEnc.",
-             "Import ListNotations.", "Definition cases : list (list Z) := ["]
-    lines.append(";\n".join(coq_expr(c) for c in cases) + "]%Z.")
+             "Definition cases : list (list Z) :="]
+    lines.append(gs.L("(" + coq_expr(c) + ")\n" for c in cases) + ".")
+    lines.append("Import ListNotations. Open Scope Z_scope. Set Printing Depth 1000000.")
     lines.append("Eval vm_compute in cases.")
     return "\n".join(lines)
 
@@ -213,7 +215,7 @@ def run(ctx):
     for p in sorted((ctx.dir / "corpus").glob("*.json")):
         for c in json.loads(p.read_text()):
             (strict_laws if "law" in c else corpus).append(c)
-    cases = corpus + gen_cases(ctx, G, r, 1 if ctx.quick else 8)
+    cases = corpus + gen_cases(ctx, G, r, 1 if ctx.quick else 3)
     # ---- implementation
     impl_in = [{k: v for k, v in c.items() if k != "a12"} for c in cases]
     for c, i in zip(cases, impl_in):
@@ -243,7 +245,7 @@ def run(ctx):
     # ---- model (vm_compute), 400 cases per file
     model = None
     if (vlib.COQ / "C13" / "ModelEnc.vo").exists():
-        chunks = [cases[i:i + 400] for i in range(0, len(cases), 400)]
+        chunks = [cases[i:i + 150] for i in range(0, len(cases), 150)]
         try:
             outs = ctx.coq_eval_many({f"c{i}": coq_file(ch) for i, ch in enumerate(chunks)})
             model = []
